@@ -219,7 +219,17 @@ package twcc
 //@   ensures cleared: forall x int64 :: startInclusive <= x && x < endExclusive ==> m.arrivalTimes[int(x & int64(len(m.arrivalTimes) - 1))] == -1
 //@   ensures others_kept: forall i int :: 0 <= i && i < len(m.arrivalTimes) && !(((int64(i) - startInclusive) & int64(len(m.arrivalTimes) - 1)) < endExclusive - startInclusive)
 //@        ==> m.arrivalTimes[i] == old(m.arrivalTimes[i])
+//@   # the same frame in terms of sequence numbers (what callers reason about): numbers up to one ring length before
+//@   # or after the cleared range keep their slot's content
+//@   ensures kept_before: forall y int64 :: startInclusive <= endExclusive && endExclusive - int64(len(m.arrivalTimes)) <= y && y < startInclusive
+//@        ==> m.arrivalTimes[int(y & int64(len(m.arrivalTimes) - 1))] == old(m.arrivalTimes[int(y & int64(len(m.arrivalTimes) - 1))])
+//@   ensures kept_after: forall y int64 :: startInclusive <= endExclusive && endExclusive <= y && y < startInclusive + int64(len(m.arrivalTimes))
+//@        ==> m.arrivalTimes[int(y & int64(len(m.arrivalTimes) - 1))] == old(m.arrivalTimes[int(y & int64(len(m.arrivalTimes) - 1))])
 //@   loop 1 invariant range: startInclusive <= sn && (startInclusive >= endExclusive ==> sn == startInclusive) && (startInclusive < endExclusive ==> sn <= endExclusive)
+//@   loop 1 invariant kept_before: forall y int64 :: sn - int64(len(m.arrivalTimes)) <= y && y < startInclusive
+//@        ==> m.arrivalTimes[int(y & int64(len(m.arrivalTimes) - 1))] == old(m.arrivalTimes[int(y & int64(len(m.arrivalTimes) - 1))])
+//@   loop 1 invariant kept_after: forall y int64 :: startInclusive <= endExclusive && endExclusive <= y && y < startInclusive + int64(len(m.arrivalTimes))
+//@        ==> m.arrivalTimes[int(y & int64(len(m.arrivalTimes) - 1))] == old(m.arrivalTimes[int(y & int64(len(m.arrivalTimes) - 1))])
 //@   loop 1 invariant cleared: forall x int64 :: startInclusive <= x && x < sn ==> m.arrivalTimes[int(x & int64(len(m.arrivalTimes) - 1))] == -1
 //@   loop 1 invariant others_kept: forall i int :: 0 <= i && i < len(m.arrivalTimes) && !(((int64(i) - startInclusive) & int64(len(m.arrivalTimes) - 1)) < sn - startInclusive)
 //@        ==> m.arrivalTimes[i] == old(m.arrivalTimes[i])
@@ -270,7 +280,15 @@ package twcc
 //@        m.beginSequenceNumber == sequenceNumber && m.endSequenceNumber == sequenceNumber + 1
 //@   ensures window_ahead: old(m.arrivalTimes != nil) && sequenceNumber >= old(m.endSequenceNumber) && sequenceNumber + 1 < old(m.endSequenceNumber) + 32768 ==>
 //@        m.endSequenceNumber == sequenceNumber + 1 && m.beginSequenceNumber == ite(old(m.beginSequenceNumber) < sequenceNumber + 1 - 32768, sequenceNumber + 1 - 32768, old(m.beginSequenceNumber))
-//@   ensures others: !(old(m.arrivalTimes != nil) && sequenceNumber + 1 >= old(m.endSequenceNumber) + 32768) ==>
+//@   # "every other number in the window keeps its time", stated per way the window can move (the five cases cover
+//@   # everything except the far-ahead jump, where the old window is dropped)
+//@   ensures others_first: old(m.arrivalTimes == nil) ==>
+//@        forall x int64 :: x != sequenceNumber && m.beginSequenceNumber <= x && x < m.endSequenceNumber ==> arrAt(m, x) == old(arrAt(m, x))
+//@   ensures others_inside: old(m.arrivalTimes != nil) && old(m.beginSequenceNumber) <= sequenceNumber && sequenceNumber < old(m.endSequenceNumber) ==>
+//@        forall x int64 :: x != sequenceNumber && m.beginSequenceNumber <= x && x < m.endSequenceNumber ==> arrAt(m, x) == old(arrAt(m, x))
+//@   ensures others_back: old(m.arrivalTimes != nil) && sequenceNumber < old(m.beginSequenceNumber) ==>
+//@        forall x int64 :: x != sequenceNumber && m.beginSequenceNumber <= x && x < m.endSequenceNumber ==> arrAt(m, x) == old(arrAt(m, x))
+//@   ensures others_ahead: old(m.arrivalTimes != nil) && sequenceNumber >= old(m.endSequenceNumber) && sequenceNumber + 1 < old(m.endSequenceNumber) + 32768 ==>
 //@        forall x int64 :: x != sequenceNumber && m.beginSequenceNumber <= x && x < m.endSequenceNumber ==> arrAt(m, x) == old(arrAt(m, x))
 //@
 //@ func (*packetArrivalTimeMap).BeginSequenceNumber
